@@ -213,6 +213,22 @@ let handle fields impl : string option * string list =
          else []) in
       (Some m, mons)
     end
+  | ["inflight2"; va; vb; k] ->
+    let kk = b (Util.bytes_of_hex k) in
+    let ev v keys = if v = "0" then EvOfferV0 keys else EvOffer keys in
+    let st = rx_run false [ev va [kk]; EvGoroutineRuns (nat_ 0); ev vb [kk]] in
+    let m = match st.rx_accepted with
+      | [a2; a1] ->
+        let o1 = if a1 <> [] then "A" else "D" in
+        let o2 = if a2 <> [] then "A" else if vb = "0" then "D" else "P" in
+        Printf.sprintf "ok o1=%s o2=%s d1=1" o1 o2
+      | _ -> "panic" in
+    let mons =
+      if not (starts impl "ok") then ["inflight2-case-failed " ^ impl]
+      else if vb = "1" && field impl "o1" = "A" && field impl "o2" = "A" then
+        [Printf.sprintf "accepted-key-in-flight a version-1 OFFER accepted a key that a version-%s transfer from another peer is still bringing in" va]
+      else [] in
+    (Some m, mons)
   | ["inflight3"; k; l] ->
     let kk = b (Util.bytes_of_hex k) and ll = b (Util.bytes_of_hex l) in
     let st = rx_run false [EvOffer [kk]; EvGoroutineRuns (nat_ 0); EvOffer [kk; ll]; EvGoroutineRuns (nat_ 1);
